@@ -582,7 +582,11 @@ func analyze(raw []byte, ca *testCA, ps *provSpec) (f fields) {
 			f.CNKind = sanClass(f.CN)
 			switch pk := csr.PublicKey.(type) {
 			case *rsa.PublicKey:
-				f.SignOK = pk.Size() >= 2048/8
+				min := 2048
+				if ps.MinLen > 0 {
+					min = ps.MinLen
+				}
+				f.SignOK = pk.Size() >= min/8
 			case *ecdsa.PublicKey:
 				f.SignOK = true
 			}
@@ -665,8 +669,12 @@ func modelLine(f fields, ps *provSpec, httpOK bool, sh httpShape, ca *testCA) st
 		}
 		caps = strings.Join(cs, ",")
 	}
-	fmt.Fprintf(&b, "pki meth=%s path=%s lookup=%s qok=%s op=%s ppair=%s ddec=%s dsig=%s inter=1 roots=1 exint=%s incroot=%s caps=%s",
-		sh.meth, sh.path, sh.lookup, okStr(sh.qok), sh.op, ppair, ddec, dsig, okStr(ps.ExInt), okStr(ps.IncRoot), caps)
+	alg := 2
+	if ps.SetAlg {
+		alg = ps.EncAlg
+	}
+	fmt.Fprintf(&b, "pki meth=%s path=%s lookup=%s qok=%s op=%s ppair=%s ddec=%s dsig=%s inter=1 roots=1 exint=%s incroot=%s caps=%s enc=%d",
+		sh.meth, sh.path, sh.lookup, okStr(sh.qok), sh.op, ppair, ddec, dsig, okStr(ps.ExInt), okStr(ps.IncRoot), caps, alg)
 	fmt.Fprintf(&b, " http=%s p7=%s tid=%s", okStr(httpOK), okStr(f.P7), okStr(f.TID))
 	if f.MTok {
 		fmt.Fprintf(&b, " mt=%s", c.X(f.MT))
@@ -736,4 +744,42 @@ func countRecipients(der []byte) int {
 		return -1
 	}
 	return len(ed.RecipientInfos)
+}
+
+// envelopeAlg reads the content-encryption algorithm of an EnvelopedData ContentInfo and returns
+// the pkcs7 identifier of it (0 DES-CBC, 1 AES-128-CBC, 2 AES-256-CBC, 3 AES-128-GCM, 4 AES-256-GCM),
+// -1 if it is none of them.
+func envelopeAlg(der []byte) int {
+	var ci struct {
+		ContentType asn1.ObjectIdentifier
+		Content     asn1.RawValue `asn1:"explicit,optional,tag:0"`
+	}
+	if _, err := asn1.Unmarshal(der, &ci); err != nil {
+		return -1
+	}
+	var ed struct {
+		Version        int
+		RecipientInfos []asn1.RawValue `asn1:"set"`
+		ECI            struct {
+			ContentType asn1.ObjectIdentifier
+			Algorithm   pkix.AlgorithmIdentifier
+			Content     asn1.RawValue `asn1:"tag:0,optional"`
+		}
+	}
+	if _, err := asn1.Unmarshal(ci.Content.Bytes, &ed); err != nil {
+		return -1
+	}
+	oids := []asn1.ObjectIdentifier{
+		{1, 3, 14, 3, 2, 7},
+		{2, 16, 840, 1, 101, 3, 4, 1, 2},
+		{2, 16, 840, 1, 101, 3, 4, 1, 42},
+		{2, 16, 840, 1, 101, 3, 4, 1, 6},
+		{2, 16, 840, 1, 101, 3, 4, 1, 46},
+	}
+	for i, o := range oids {
+		if ed.ECI.Algorithm.Algorithm.Equal(o) {
+			return i
+		}
+	}
+	return -1
 }
